@@ -74,7 +74,7 @@ Definition rc_retrieve (c : rcontainer) (v : gval) : pres bitmap :=
     if isnil then POk wc else
     pbind (ac_query_text [32] v) (fun t =>
       let matched := fun m : list (text * bitmap) =>
-        flat_map (fun kb => match fst kb with [] => [] | _ => if substring (fst kb) t then [snd kb] else [] end) m in
+        flat_map (fun kb => match fst kb with [] => [] | _ => if kw_found (fst kb) t then [snd kb] else [] end) m in
       let r1 := fold_left bm_or (matched inc) wc in
       POk (fold_left bm_andnot (matched exc) r1)))
   end.
